@@ -364,3 +364,77 @@ Lemma mem_In : forall s l, mem s l = true <-> In s l.
 Proof.
   intros. unfold mem. rewrite existsb_exists. split; [intros [x [I E]]; apply String.eqb_eq in E; now subst | intros I; exists s; split; [exact I | apply String.eqb_refl]].
 Qed.
+
+(* ---------------------------------------------------------------- qubit detection on types *)
+Section GtyInd.
+  Variable P : gty -> Prop.
+  Definition Parg (a : option gty) : Prop := match a with Some u => P u | None => True end.
+  Hypothesis Hq : P GQubit.
+  Hypothesis Hl : P GLeaf.
+  Hypothesis Ho : forall args, Forall Parg args -> P (GOpaque args).
+  Hypothesis Ht : forall args, Forall Parg args -> P (GTuple args).
+  Hypothesis Hs : forall args fs, Forall Parg args -> Forall P fs -> P (GStruct args fs).
+
+  Fixpoint gty_ind' (t : gty) : P t :=
+    let goa := fix goa (l : list (option gty)) : Forall Parg l :=
+      match l with
+      | [] => Forall_nil _
+      | a :: r => Forall_cons a (match a as a0 return Parg a0 with Some u => gty_ind' u | None => I end) (goa r)
+      end in
+    match t with
+    | GQubit => Hq
+    | GLeaf => Hl
+    | GOpaque args => Ho args (goa args)
+    | GTuple args => Ht args (goa args)
+    | GStruct args fs => Hs args fs (goa args)
+        ((fix gof (l : list gty) : Forall P l :=
+            match l with [] => Forall_nil _ | u :: r => Forall_cons u (gty_ind' u) (gof r) end) fs)
+    end.
+End GtyInd.
+
+Definition arg_visit (a : option gty) : bool := match a with Some u => ty_visit u | None => false end.
+
+Lemma ty_go_args : forall l,
+  (fix go (l : list (option gty)) {struct l} : bool :=
+     match l with [] => false | a :: r => (match a with Some u => ty_visit u | None => false end) || go r end) l
+  = existsb arg_visit l.
+Proof. induction l; simpl; [reflexivity | now rewrite IHl]. Qed.
+
+Lemma ty_go_fields : forall l,
+  (fix gof (l : list gty) {struct l} : bool := match l with [] => false | u :: r => ty_visit u || gof r end) l
+  = existsb ty_visit l.
+Proof. induction l; simpl; [reflexivity | now rewrite IHl]. Qed.
+
+Lemma args_exists : forall args,
+  Forall (Parg (fun t => ty_visit t = true <-> qubit_occurs t)) args ->
+  (existsb arg_visit args = true <-> exists u, In (Some u) args /\ qubit_occurs u).
+Proof.
+  intros args F. rewrite existsb_exists. rewrite Forall_forall in F. split.
+  - intros [a [I V]]. destruct a as [u|]; [|discriminate]. exists u. split; [exact I | apply (F (Some u) I), V].
+  - intros [u [I O]]. exists (Some u). split; [exact I | apply (F (Some u) I), O].
+Qed.
+
+Lemma fields_exists : forall fs,
+  Forall (fun t => ty_visit t = true <-> qubit_occurs t) fs ->
+  (existsb ty_visit fs = true <-> exists u, In u fs /\ qubit_occurs u).
+Proof.
+  intros fs F. rewrite existsb_exists. rewrite Forall_forall in F. split.
+  - intros [u [I V]]. exists u. split; [exact I | apply (F u I), V].
+  - intros [u [I O]]. exists u. split; [exact I | apply (F u I), O].
+Qed.
+
+Lemma ty_visit_iff : forall t, ty_visit t = true <-> qubit_occurs t.
+Proof.
+  induction t as [ | | args IH | args IH | args fs IHa IHf] using gty_ind'.
+  - split; [constructor | reflexivity].
+  - split; [discriminate | intro H; inversion H].
+  - cbn [ty_visit]. rewrite ty_go_args, (args_exists args IH). split.
+    + intros [u [I O]]. now apply (QO_opaque args u).
+    + intro H. inversion H; subst. now exists u.
+  - cbn [ty_visit]. rewrite ty_go_args, (args_exists args IH). split.
+    + intros [u [I O]]. now apply (QO_tuple args u).
+    + intro H. inversion H; subst. now exists u.
+  - cbn [ty_visit]. rewrite ty_go_args, ty_go_fields, orb_true_iff, (args_exists args IHa), (fields_exists fs IHf). split.
+    + intros [[u [I O]] | [u [I O]]]; [now apply (QO_field args fs u) | now apply (QO_sarg args fs u)].
+    + intro H. inversion H; subst; [right | left]; now exists u.
+Qed.
